@@ -45,14 +45,16 @@ RULE = (
     'per operation family, every member of the stated family is executed on '
     'the real desper.math and compared with a plain-list textbook reference '
     'in exact int/Fraction arithmetic.  Vector operations: complete grids '
-    'S^k with |S| = 3 (4 in the thorough tier) over all k scalar inputs of '
-    'the call (grid lemma: per-variable degree <= 2).  Matrix sums, '
+    'S^k with |S| = 3 (4 in the thorough tier for Vec2/Vec3) over all k '
+    'scalar inputs of the call, one grid value a non-integer Fraction (grid '
+    'lemma: per-variable degree <= 2).  Matrix sums, '
     'transposes and products (18..35 scalar inputs): the complete degree-2 '
     'family (all points with at most two non-zero inputs: 0, 1*e_i, 2*e_i, '
     '2*e_i + 3*e_j) - this contains all pairs of basis matrices / basis '
     'vectors - plus dense guards; product laws on all triples of basis '
-    'matrices.  ~Mat4: complete {0,1}^16 and row-product grids with '
-    'Fraction entries (M @ ~M == I == ~M @ M exactly), thorough = the '
+    'matrices.  ~Mat4: complete {0,1}^16 and R^4 row-product grids (R = 12 '
+    'dense/unit row vectors, 18 in the thorough tier) with Fraction entries '
+    '(M @ ~M == I == ~M @ M exactly), thorough = the '
     'complete {-1,0,1}^16 grid (43 046 721 matrices).  Piecewise operations '
     '(clamp, limit): all weak orderings / complete quarter-step grids '
     'across the branch boundary.  Swizzling: every string of length 0..4 '
@@ -109,8 +111,8 @@ ASSUMPTIONS = [
     'tolerance separates the square roots of distinct integers, so there the '
     'value is identified exactly.',
     'orthogonal_projection computes 2.0/width in floats: compared with the '
-    'exact rational value with tolerance 1e-12, which separates the distinct '
-    'rationals of the grid (denominators <= 8).',
+    'exact rational value with tolerance 1e-12, far below the spacing of '
+    'the small-denominator rationals that occur on the grid.',
     'A singular Mat4 must come back equal to itself with at least one '
     'warning issued through the warnings module (recorded with '
     'catch_warnings, filter "always").',
@@ -469,14 +471,15 @@ def check_root(clause, feats, what, r, square):
     """r must be the non-negative square root of the exact rational."""
     try:
         rr = F(r)
-    except (TypeError, ValueError):
+    except (TypeError, ValueError, OverflowError):
         raise Violation(clause, f'{what} -> {r!r}, not a number',
                         kind='value', **feats)
     if rr < 0 or abs(rr * rr - square) > F(1, 10 ** 12) * max(1, square):
         raise Violation(clause, f'{what} -> {r!r}, expected sqrt({square})',
                         kind='value', **feats)
-    root = math.isqrt(square) if square == int(square) else None
-    return root is not None and root * root == square
+    if square != int(square):
+        return False
+    return math.isqrt(int(square)) ** 2 == square
 
 
 def run_vec_distance(case):
@@ -585,12 +588,12 @@ def limit_maxima(tier):
     return [F(0), F(1, 4), F(1, 2), F(1), F(3, 2), F(2), F(5, 2), F(3)]
 
 
-def cases_vec_limit(tier):
+def _limit_cases(tier):
     coords = limit_coords(tier)
     cases = []
     for cls in ('Vec2', 'Vec3'):
         vecs = list(product(coords, repeat=DIM[cls]))
-        # simplest first: few non-zero components, small components
+        # simplest first: few non-zero components, small, positive components
         vecs.sort(key=lambda v: (sum(1 for x in v if x),
                                  sum(abs(x) for x in v),
                                  tuple(-x for x in v)))
@@ -598,6 +601,16 @@ def cases_vec_limit(tier):
             for m in limit_maxima(tier):
                 cases.append((cls, 'limit', tuple(enc(x) for x in v),
                               enc(m)))
+    return cases
+
+
+def cases_vec_limit(tier):
+    cases = _limit_cases('quick')
+    if tier == 'thorough':
+        # the quick grid first (same minimal counterexamples in both tiers),
+        # then the rest of the finer grid
+        listed = set(cases)
+        cases += [c for c in _limit_cases('thorough') if c not in listed]
     return cases
 
 
